@@ -256,7 +256,12 @@ class Replayer:
     o.rebind(d, notify_parents=notify_parents, skip_notification=True if skip else None)
 
   def do_Clone(self, n, deep):
-    return self.obj[n].clone(deep=deep)
+    # clone(deep) and the copy module must coincide: alternate between them
+    self._clone_count = getattr(self, '_clone_count', 0) + 1
+    o = self.obj[n]
+    if self._clone_count % 2 == 0:
+      return copy.deepcopy(o) if deep else copy.copy(o)
+    return o.clone(deep=deep)
 
   def do_JsonRoundTrip(self, n):
     return pg.from_json(pg.to_json(self.obj[n]))
